@@ -229,6 +229,39 @@ func init() {
 				}
 			}
 		}
+		// rules longer than one 4 KiB read block (a long $denyallow list first, in the middle or last among the
+		// modifiers) served from file-backed lists of a deployment-shaped storage through Engine.MatchRequest
+		{
+			var dl []string
+			for i := 0; len(strings.Join(dl, "|")) < 4200; i++ {
+				dl = append(dl, fmt.Sprintf("pad%04d.test", i))
+			}
+			long := "denyallow=" + strings.Join(dl, "|")
+			for mask := 1; mask < 1<<n; mask++ {
+				var mods []string
+				for i := 0; i < n; i++ {
+					if mask&(1<<i) != 0 {
+						mods = append(mods, c16Mods[i])
+					}
+				}
+				if mask%3 != 0 && !c.Thorough() {
+					continue
+				}
+				exp := c16Expected(mods)
+				pos := mask % (len(mods) + 1)
+				all := append(append(append([]string{}, mods[:pos]...), long), mods[pos:]...)
+				text := c16RuleText(all)
+				st, release := deployStorage([]string{"||other.test^", text}, true)
+				got := urlfilter.NewEngine(st).MatchRequest(rules.NewRequest("http://example.org/", "", rules.TypeDocument)).GetCosmeticOption()
+				release()
+				c.Run.Add("evaluations", 1)
+				if got != exp {
+					c.Run.Violate(ev.Violation{Pred: "option-equals-all-minus-union", Sig: map[string]any{"mods": mods, "long_rule_from_file": true},
+						What:   fmt.Sprintf("exception with modifiers %v and a $denyallow list of %d bytes at position %d (rule of %d bytes) in a file-backed list: Engine.MatchRequest gives cosmetic option %03b, expected %03b", mods, len(long), pos, len(text), got, exp),
+						Replay: map[string]any{"mods": mods}})
+				}
+			}
+		}
 		// a $badfilter exception with a strict subset of another exception's
 		// modifiers is not its twin: the option is the one of the full exception
 		cos := []string{"elemhide", "generichide", "jsinject", "urlblock", "important"}
@@ -245,6 +278,16 @@ func init() {
 				}
 				lines := []string{c16RuleText(full), c16RuleText(append(append([]string{}, part...), "badfilter"))}
 				for _, order := range [][]string{lines, {lines[1], lines[0]}} {
+					// directly, the same list of rule objects evaluated twice (what a caller of MatchAll may do)
+					list := []*rules.NetworkRule{mustNetRule(order[0], 1), mustNetRule(order[1], 1), mustNetRule("@@||example.org^$extension", 1)}
+					o1 := rules.NewMatchingResult(list, nil).GetCosmeticOption()
+					o2 := rules.NewMatchingResult(list, nil).GetCosmeticOption()
+					c.Run.Add("evaluations", 2)
+					if exp := c16Expected(full); o1 != exp || o2 != exp {
+						c.Run.Violate(ev.Violation{Pred: "option-equals-all-minus-union", Sig: map[string]any{"mods": full, "badfilter_subset": part, "route": "same list twice"},
+							What:   fmt.Sprintf("NewMatchingResult over %v evaluated twice on the same list gives cosmetic options %03b then %03b, expected %03b both times", append(append([]string{}, order...), "@@||example.org^$extension"), o1, o2, exp),
+							Replay: map[string]any{"mods": full}})
+					}
 					res := urlfilter.NewEngine(stringStorage(joinLines(order) + "\n")).MatchRequest(rules.NewRequest("http://example.org/", "", rules.TypeDocument))
 					c.Run.Add("evaluations", 1)
 					if g, exp := res.GetCosmeticOption(), c16Expected(full); g != exp {
